@@ -12,7 +12,7 @@ import (
 	. "vh/vhlib"
 )
 
-var gens = map[string]GenFn{"SrcTokens": genSrcTokens, "HealthOps": genHealthOps, "LBTokens": genLBTokens}
+var gens = map[string]GenFn{"SrcTokens": genSrcTokens, "HealthOps": genHealthOps, "LBTokens": genLBTokens, "HealthLoop": genHealthLoop}
 
 // genSrcTokens: literal tokens / constants at named sites.
 //
@@ -380,5 +380,169 @@ func genLBTokens(repo string) (string, error) {
 		}
 	}
 	fmt.Fprintf(&b, "Definition LBTokens_translator_ok := %v.\n", ok)
+	return b.String(), nil
+}
+
+// ---------------------------------------------------------------------------
+// genHealthLoop: where does sessionChecker.Start advance the awaited check id?
+//
+//	IdLoopTop  : `currentID := atomic.AddUint64(&c.checkID, 1)` is the first statement of the `default:` branch of
+//	             the loop (every iteration, also after an ignored response); OnCheck loads the id
+//	IdOnResult : one AddUint64 before the loop, one in the `if resp.ID == currentID` body, one in the
+//	             `<-c.timeout` branch, none elsewhere; OnCheck loads the id
+//
+// Anything else (e.g. the id allocated in OnCheck) => HealthLoop_translator_ok := false.
+func isCheckIDCall(e ast.Expr, fn string) bool {
+	c := isAtomicCall(e, fn)
+	if c == nil || len(c.Args) < 1 {
+		return false
+	}
+	u, ok := c.Args[0].(*ast.UnaryExpr)
+	if !ok || u.Op != token.AND {
+		return false
+	}
+	sel, ok := u.X.(*ast.SelectorExpr)
+	return ok && sel.Sel.Name == "checkID"
+}
+
+func countCheckIDAdds(n ast.Node) int {
+	cnt := 0
+	if n == nil {
+		return 0
+	}
+	ast.Inspect(n, func(x ast.Node) bool {
+		if e, ok := x.(ast.Expr); ok && isCheckIDCall(e, "AddUint64") {
+			cnt++
+		}
+		return true
+	})
+	return cnt
+}
+
+func isAddAssign(st ast.Stmt) bool {
+	as, ok := st.(*ast.AssignStmt)
+	return ok && len(as.Rhs) == 1 && isCheckIDCall(as.Rhs[0], "AddUint64")
+}
+
+func genHealthLoop(repo string) (string, error) {
+	_, f, err := ParseGoFile(repo, "pkg/upstream/healthcheck/session_checker.go")
+	if err != nil {
+		return "", err
+	}
+	var b strings.Builder
+	b.WriteString("From MV Require Import Model.HealthLoop.\n")
+	fail := func(why string) (string, error) {
+		fmt.Fprintf(&b, "(* %s *)\nDefinition hl_idmode : idmode := IdLoopTop.\nDefinition HealthLoop_translator_ok := false.\n", why)
+		return b.String(), nil
+	}
+	start := FindFunc(f, "sessionChecker", "Start")
+	onCheck := FindFunc(f, "sessionChecker", "OnCheck")
+	if start == nil || onCheck == nil {
+		return fail("Start / OnCheck not found")
+	}
+	// OnCheck: loads the id, never allocates one
+	loads := 0
+	ast.Inspect(onCheck.Body, func(x ast.Node) bool {
+		if e, ok := x.(ast.Expr); ok && isCheckIDCall(e, "LoadUint64") {
+			loads++
+		}
+		return true
+	})
+	if countCheckIDAdds(onCheck.Body) != 0 || loads != 1 {
+		return fail("OnCheck does not simply load the check id")
+	}
+	var loop *ast.ForStmt
+	preAdd := 0
+	for _, st := range start.Body.List {
+		if fs, ok := st.(*ast.ForStmt); ok {
+			loop = fs
+			break
+		}
+		if isAddAssign(st) {
+			preAdd++
+		}
+	}
+	if loop == nil || loop.Cond != nil || len(loop.Body.List) != 1 {
+		return fail("loop shape not recognised")
+	}
+	outer, ok := loop.Body.List[0].(*ast.SelectStmt)
+	if !ok {
+		return fail("outer select not found")
+	}
+	var dflt *ast.CommClause
+	for _, cl := range outer.Body.List {
+		if cc := cl.(*ast.CommClause); cc.Comm == nil {
+			dflt = cc
+		}
+	}
+	if dflt == nil || len(dflt.Body) == 0 {
+		return fail("default branch not found")
+	}
+	loopTop := isAddAssign(dflt.Body[0])
+	var inner *ast.SelectStmt
+	for _, st := range dflt.Body {
+		if s, ok := st.(*ast.SelectStmt); ok {
+			inner = s
+		}
+	}
+	if inner == nil {
+		return fail("inner select not found")
+	}
+	matchAdds, elseAdds, timeoutAdds, seenResp, seenTimeout := 0, 0, 0, false, false
+	for _, cl := range inner.Body.List {
+		cc := cl.(*ast.CommClause)
+		var ch string
+		switch c := cc.Comm.(type) {
+		case *ast.AssignStmt:
+			if u, ok := c.Rhs[0].(*ast.UnaryExpr); ok && u.Op == token.ARROW {
+				if sel, ok := u.X.(*ast.SelectorExpr); ok {
+					ch = sel.Sel.Name
+				}
+			}
+		case *ast.ExprStmt:
+			if u, ok := c.X.(*ast.UnaryExpr); ok && u.Op == token.ARROW {
+				if sel, ok := u.X.(*ast.SelectorExpr); ok {
+					ch = sel.Sel.Name
+				}
+			}
+		}
+		switch ch {
+		case "resp":
+			seenResp = true
+			if len(cc.Body) != 1 {
+				return fail("response branch shape not recognised")
+			}
+			is, ok := cc.Body[0].(*ast.IfStmt)
+			if !ok {
+				return fail("response branch shape not recognised")
+			}
+			be, ok := is.Cond.(*ast.BinaryExpr)
+			if !ok || be.Op != token.EQL {
+				return fail("response id comparison not recognised")
+			}
+			matchAdds = countCheckIDAdds(is.Body)
+			if is.Else != nil {
+				elseAdds = countCheckIDAdds(is.Else)
+			}
+		case "timeout":
+			seenTimeout = true
+			for _, st := range cc.Body {
+				timeoutAdds += countCheckIDAdds(st)
+			}
+		}
+	}
+	if !seenResp || !seenTimeout {
+		return fail("response / timeout branches not found")
+	}
+	total := countCheckIDAdds(start.Body)
+	switch {
+	case preAdd == 0 && loopTop && matchAdds == 0 && elseAdds == 0 && timeoutAdds == 0 && total == 1:
+		b.WriteString("Definition hl_idmode : idmode := IdLoopTop.\n")
+	case preAdd == 1 && !loopTop && matchAdds == 1 && elseAdds == 0 && timeoutAdds == 1 && total == 3:
+		b.WriteString("Definition hl_idmode : idmode := IdOnResult.\n")
+	default:
+		return fail(fmt.Sprintf("check id allocation not recognised (before loop %d, loop top %v, match %d, else %d, timeout %d, total %d)", preAdd, loopTop, matchAdds, elseAdds, timeoutAdds, total))
+	}
+	b.WriteString("Definition HealthLoop_translator_ok := true.\n")
 	return b.String(), nil
 }
